@@ -107,3 +107,30 @@ def uninterpreted(fn):
     """A spec function pyvc treats as an uninterpreted function of its arguments
     (natively its body runs): for facts outside the verified subset (AST resolution)."""
     return fn
+def ghost_pred(name, *args):
+    """native meaning of a ghost predicate (bool result): supplied by the replay harness"""
+    return bool(GHOST[name](*args))
+
+
+KEY_UNIVERSE = []
+"""finite universe of keys for the native meaning of `forall_keys`: the replay harness fills it with
+every key occurring in the inputs plus a few extra"""
+
+
+def forall_keys(kname, fn):
+    """for all keys k of class `kname`: fn(k).  Symbolic: a z3 quantifier over the key sort."""
+    return all(fn(k) for k in list(KEY_UNIVERSE) if any(c.__name__ == kname for c in type(k).__mro__))
+
+
+def forall_ints(fn):
+    """for all integers i: fn(i).  Symbolic: a z3 quantifier; native: a finite window (sanity only)."""
+    return all(fn(i) for i in range(-2, 34))
+
+
+def seq_at(seq, i):
+    """total element access (None outside the range)"""
+    return seq[i] if 0 <= i < len(seq) else None
+
+
+def seq_len(seq):
+    return len(seq)
